@@ -298,8 +298,9 @@ Proof.
       destruct (trait_of c n) as [[d dflt]|] eqn:Ht; [|reflexivity].
       destruct (setattr_ok E c s0 n v s1 d dflt Hu Hc Hp HS0 Ht Hs) as (w & Hv & Hg & _).
       destruct d; try reflexivity.
-      destruct (dyn_range_in_bounds_lemma E c s0 lo hi mask v w Hv) as (l & hh & z & Hl & Hh & -> & _ & Hr).
-      now rewrite Hg, Hl, Hh. }
+      - destruct (dyn_range_in_bounds_lemma E c s0 lo hi mask v w Hv) as (l & hh & z & Hl & Hh & -> & _ & Hr).
+        now rewrite Hg, Hl, Hh.
+      - destruct (dyn_enum_member_lemma E c s0 src v w Hv) as (-> & items & Hi & Hm). now rewrite Hg, Hi. }
     destruct h; cbn [step].
     - specialize (G s HS). cbn [assign_all]. destruct (setattr E c s n v) as [s1 [|e]]; exact G.
     - specialize (G s HS). cbn [assign_all]. destruct (setattr E c s n v) as [s1 [|e]]; exact G.
